@@ -3,12 +3,18 @@ import Bmc.Proofs.GenKeys.TranslatedOk
 import Bmc.Proofs.GenKeys.SIK
 import Bmc.Proofs.GenKeys.Rakp2
 import Bmc.Proofs.GenKeys.Rakp3
+import Bmc.Proofs.GenKeys.ICV
 import Bmc.Proofs.GenKeys.KConstant
 import Bmc.Proofs.GenKeys.Tables
 import Bmc.Proofs.GenKeys.Integrity
 import Bmc.Proofs.GenKeys.Cipher
+import Bmc.Proofs.GenHs.TranslatedOk
 import Bmc.Proofs.GenHs.Model
+import Bmc.Proofs.GenHs.Wrappers
+import Bmc.Proofs.GenHs.NewV2Session
+import Bmc.Proofs.GenHs.Examples
 import Bmc.Proofs.GenLoops.BuildAndSendPayload
+import Bmc.Proofs.EndToEnd.HandshakeC02
 #print axioms Bmc.Proofs.C02.icvOf_spec
 #print axioms Bmc.Proofs.C02.session_sound
 #print axioms Bmc.Proofs.C02.wrong_code_is_password_error
@@ -21,6 +27,8 @@ import Bmc.Proofs.GenLoops.BuildAndSendPayload
 #print axioms Bmc.Proofs.GenKeys.calculateSIK_input_eq
 #print axioms Bmc.Proofs.GenKeys.calculateRAKPMessage2AuthCode_input_eq
 #print axioms Bmc.Proofs.GenKeys.calculateRAKPMessage3AuthCode_input_eq
+#print axioms Bmc.Proofs.GenKeys.calculateRAKPMessage4ICV_input_eq
+#print axioms Bmc.Proofs.GenKeys.calculateRAKPMessage4ICV_mac
 #print axioms Bmc.Proofs.GenKeys.K_constant_eq
 #print axioms Bmc.Proofs.GenKeys.K_input_eq
 #print axioms Bmc.Proofs.GenKeys.session_k1_k2
@@ -32,9 +40,25 @@ import Bmc.Proofs.GenLoops.BuildAndSendPayload
 #print axioms Bmc.Proofs.GenKeys.algorithmHasher_is_integMac
 #print axioms Bmc.Proofs.GenKeys.algorithmCipher_key
 #print axioms Bmc.Proofs.GenKeys.algorithmCipher_key_is_take16
+#print axioms Bmc.Proofs.GenHs.translated_ok
+#print axioms Bmc.Proofs.GenHs.gaveUp_none
 #print axioms Bmc.Proofs.GenHs.stepOpen_is_checks
 #print axioms Bmc.Proofs.GenHs.stepRakp2_is_checks
 #print axioms Bmc.Proofs.GenHs.stepRakp4_is_checks
 #print axioms Bmc.Proofs.GenHs.newSession_is_hsRun
+#print axioms Bmc.Proofs.GenHs.openSession_gen_eq
+#print axioms Bmc.Proofs.GenHs.rakpMessage1_gen_eq
+#print axioms Bmc.Proofs.GenHs.rakpMessage3_gen_eq
+#print axioms Bmc.Proofs.GenHs.newV2Session_gen_eq
+#print axioms Bmc.Proofs.GenHs.newV2Session_no_suite
+#print axioms Bmc.Proofs.GenHs.newV2Session_total
+#print axioms Bmc.Proofs.GenHs.keys_view_ignores_authCode
+#print axioms Bmc.Proofs.GenHs.toy_session
+#print axioms Bmc.Proofs.GenHs.toy_wrong_code
+#print axioms Bmc.Proofs.GenHs.toy_wrong_icv
+#print axioms Bmc.Proofs.GenHs.toy_gen_eq
 #print axioms Bmc.Proofs.GenLoops.V2Sessionless_buildAndSendPayload_gen_eq
 #print axioms Bmc.Proofs.GenLoops.V2Sessionless_buildAndSendPayload_serialize_error
+#print axioms Bmc.Proofs.EndToEnd.hsRun_sound
+#print axioms Bmc.Proofs.EndToEnd.viewAnswers_honest
+#print axioms Bmc.Proofs.EndToEnd.generated_newV2Session_sound
